@@ -1,5 +1,6 @@
 import SpoxModel.Lemmas.Func
 import SpoxModel.Lemmas.FuncSem
+import SpoxModel.Lemmas.FuncProg
 /-!
 # C14 — functions mean their body, are defined once; inconsistent bodies are rejected
 
@@ -166,6 +167,55 @@ theorem imports_agree_with_model (bodyReq modelReq : List (String × Nat))
       omega
   have : v' = m := by omega
   rw [hv', this]
+
+/-! ### round 10: the hypothesis of `imports_agree_with_model` proved from the code's collection
+
+`Func.PGraph` (`Model/FuncProg.lean`) is the whole program as one tree: plain nodes and control-flow nodes
+with their own `Node.opset_req`, `Function` nodes with their own requirement, key, proto and *body*.
+`preqG` = `BuildResult.opset_req` of `compile_graph` (node loop — `Function.opset_req` = own ∪ the body
+build's — then the merge of what the builds of body graphs collected); `bodiesG` = every `Function` node
+reachable by structural descent, with its body. -/
+
+/-- **Body requirements are model requirements** (no hypothesis): for every `Function` node reachable
+    anywhere in the program — main graph, If/Loop/Scan bodies, bodies of other functions, any depth —
+    everything its body build requires is in the requirement set of the program's own build. -/
+theorem body_req_in_model_req (g : PGraph) (e : Inst) (b : PGraph) (hb : (e, b) ∈ bodiesG g)
+    (p : String × Nat) (hp : p ∈ preqG b) : p ∈ preqG g :=
+  body_req_sub p e b hp g hb
+
+/-- the reachable bodies are exactly (same order, same multiplicity) the instances `usedG` lists — the ones
+    `defined_once` / `definition_is_own_body` speak about -/
+theorem reachable_bodies_are_used (g : PGraph) : (bodiesG g).map (·.1) = usedG (toF g) :=
+  bodies_used g
+
+/-- **One opset per domain, model and functions alike — for the program.** `extra` = the graph's
+    `_extra_opset_req`. For every function instance used anywhere in the program and every domain the model
+    imports, the function's `opset_import` (computed from its body build's requirements and the model's
+    opsets) carries exactly the model's version. No side condition: the former hypothesis "body
+    requirements ⊆ model requirements" is `body_req_in_model_req`. -/
+theorem imports_agree_with_model_program (g : PGraph) (extra : List (String × Nat)) (e : Inst) (b : PGraph)
+    (hb : (e, b) ∈ bodiesG g) (d : String) (m : Nat)
+    (hm : getV (policy (preqG g ++ extra)) d = some m) :
+    getV (funcImports (preqG b) (policy (preqG g ++ extra))) d = some m :=
+  imports_agree_with_model (preqG b) (preqG g ++ extra)
+    (fun p hp => List.mem_append_left _ (body_req_in_model_req g e b hb p hp)) d m hm
+
+/-- …and every used key has such a body: an instance in `usedG` comes with a reachable body graph. -/
+theorem used_has_body (g : PGraph) (e : Inst) (he : e ∈ usedG (toF g)) : ∃ b, (e, b) ∈ bodiesG g := by
+  rw [← reachable_bodies_are_used g] at he
+  rcases List.mem_map.mp he with ⟨⟨e', b⟩, hmem, rfl⟩
+  exact ⟨b, hmem⟩
+
+-- non-vacuity: `g` (domain "d2", needs ai.onnx.ml 3 inside a Loop of its body) is called only inside an If
+-- branch of `f`'s body; the program itself is written at opset 17, `extra` asks for 19
+example :
+    let gb : PGraph := .mk [.ctrl [("", 18)] [.mk [.op [("ai.onnx.ml", 3)]]]]
+    let fb : PGraph := .mk [.ctrl [("", 17)] [.mk [.call [("d2", 1)] ("d2", "g") 1 gb]]]
+    let prog : PGraph := .mk [.op [("", 17)], .call [("d1", 1)] ("d1", "f") 0 fb]
+    (bodiesG prog).map (·.1) = [(("d1", "f"), 0), (("d2", "g"), 1)] ∧
+    policy (preqG prog ++ [("ai.onnx", 19)]) = [("", 19), ("d1", 1), ("d2", 1), ("ai.onnx.ml", 3)] ∧
+    funcImports (preqG gb) (policy (preqG prog ++ [("ai.onnx", 19)])) =
+      [("", 19), ("ai.onnx.ml", 3), ("d1", 1), ("d2", 1)] := by decide
 
 open FuncSem in
 /-- **A call means its body.** For any operator semantics `S`, any straight-line program with (multi-output)
